@@ -1376,7 +1376,17 @@ class Evaluator:
                 self.env = saved
             return
         if isinstance(st, ast.With):
-            raise Unsupported("table evaluator: with statement")
+            # the context managers of the tree are open files: __enter__
+            # gives the object itself, __exit__ lets exceptions through
+            for item in st.items:
+                v = self.ev(item.context_expr)
+                if isinstance(v, Abs) and v.cls is not None:
+                    raise Unsupported("table evaluator: with %s" %
+                                      unparse(item.context_expr))
+                if item.optional_vars is not None:
+                    self.bind(item.optional_vars, v)
+            self.block(st.body)
+            return
         if isinstance(st, ast.Break):
             raise _Break()
         if isinstance(st, ast.Continue):
